@@ -22,6 +22,7 @@ import vlib
 from vlib import cz, czl, cnat, cnatl, cbool, copt, clist, cfloat
 
 GEN = os.path.join(vlib.COQ, "Gen", "C02_gen.v")
+GEN_LOOPS = os.path.join(vlib.COQ, "Gen", "C02_gen_loops.v")
 
 
 def regen(repo=None):
@@ -41,6 +42,33 @@ def regen(repo=None):
         old = open(GEN).read() if os.path.exists(GEN) else None
         if old != txt:
             with open(GEN, "w") as f:
+                f.write(txt)
+    done = [k for k, v in status.items() if v is None]
+    refused = ["%s (%s)" % (k, v) for k, v in status.items() if v is not None]
+    msg = "regenerated: %s" % (", ".join(done) or "nothing")
+    if refused:
+        msg += "; translator refused: " + "; ".join(refused)
+    lok, lmsg, lstatus = regen_loops(repo)
+    regen.loops = (lok, lmsg, lstatus)
+    return bool(done), msg + " | loops " + lmsg, status
+
+
+def regen_loops(repo=None):
+    """Tie (T) for the packaged loops: regenerate coq/Gen/C02_gen_loops.v (eaSimple, eaMuPlusLambda, eaMuCommaLambda).
+    Same conventions as regen()."""
+    import c02_py2coq
+    repo = repo or vlib.REPO
+    try:
+        txt, status = c02_py2coq.translate_loops_repo(repo)
+    except Exception as e:  # noqa
+        r = c02_py2coq.Refuse("Module", "translator error %s: %s" % (type(e).__name__, e))
+        status = {f[0]: r for f in c02_py2coq.LOOP_FUNCS}
+        txt, _ = c02_py2coq.translate_loops_source("\x00")
+    with vlib.BuildLock():
+        os.makedirs(os.path.dirname(GEN_LOOPS), exist_ok=True)
+        old = open(GEN_LOOPS).read() if os.path.exists(GEN_LOOPS) else None
+        if old != txt:
+            with open(GEN_LOOPS, "w") as f:
                 f.write(txt)
     done = [k for k, v in status.items() if v is None]
     refused = ["%s (%s)" % (k, v) for k, v in status.items() if v is not None]
@@ -1094,6 +1122,107 @@ def tie_regenerated(run):
     return "check", [], True
 
 
+def build_gen(run, props):
+    """run.build_props(props), repeated when the build died without a Coq error location"""
+    import re as _re
+    nb, no = len(run.broken), len(run.obligations)
+    ok = False
+    for attempt in range(3):
+        ok = run.build_props(props=props)
+        log = run.broken[-1].get("log", "") if len(run.broken) > nb else ""
+        if ok or _re.search(r'File "[^"]+", line \d+', log) or attempt == 2:
+            break
+        del run.broken[nb:]
+        del run.obligations[no:]
+    return ok
+
+
+def tie_regenerated_loops(run, base_ok):
+    """The packaged loops eaSimple / eaMuPlusLambda / eaMuCommaLambda, regenerated and proved equal to the composed
+    models of Model/C03_Full.v (Props/C02_gen_loops.v); registered under C02.  Returns True when the regenerated loops
+    can be evaluated against the implementation."""
+    lok, lmsg, lstatus = getattr(regen, "loops", (False, "not run", {}))
+    done = [k for k, v in lstatus.items() if v is None]
+    refused = {k: v for k, v in lstatus.items() if v is not None}
+    run.extra_cov["regenerated_loops"] = done
+    run.extra_cov["translator_refused_loops"] = {k: str(v) for k, v in refused.items()}
+    for k, v in refused.items():
+        run.notes.append("tie (loops): correspondence-only (translator refused %s at line %s in %s: %s)" % (v.node, v.line, k, v.why))
+    if not lok:
+        return False
+    if not base_ok:
+        run.notes.append("tie (loops): not rebuilt, the regenerated varAnd / varOr they call are not (provably) the model")
+        return False
+    if build_gen(run, "Props/C02_gen_loops.v"):
+        run.notes.append("tie (loops): regenerated (%s)" % ", ".join(done))
+        run.extra_cov["tie_loops"] = ("translation (regenerated loops proved equal to full_simple / full_plus / full_comma of "
+                                      "Model/C03_Full.v: %s)" % ", ".join(done))
+        run.trusted.append("loops dialect of harness/c02_py2coq.py (signature table: `population` = the caller's list object, a "
+                           "Statistics object and a HallOfFame given, verbose false, toolbox.map lazy; toolbox.select / evaluate / "
+                           "stats.compile / halloffame.update / logbook.record mapped to the statements of coq/Model/C02_GenLoopsRt.v)")
+        return True
+    run.extra_cov["tie_loops"] = "translator succeeded but the regenerated loops are no longer (provably) the composed model"
+    try:
+        with open(os.path.join(run.rundir, "C02_gen_loops.v.broken"), "w") as f:
+            f.write(open(GEN_LOOPS).read())
+    except OSError:
+        pass
+    return False
+
+
+def loops_correspondence(run):
+    """The regenerated loops evaluated against the implementation: recorded runs of the three loops (generators,
+    recording wrappers and term printer of harness/c03.py, which the composed model of C03 uses) are replayed through
+    gen_eaSimple / gen_eaMuPlusLambda / gen_eaMuCommaLambda (Corr/C02_loops.v)."""
+    import random as _r
+    try:
+        import c03
+    except Exception as e:  # noqa
+        run.notes.append("loops correspondence skipped: harness/c03.py cannot be imported (%r)" % (e,))
+        return
+    rng = _r.Random(run.rng.getrandbits(64))
+    terms, cases = [], []
+    want = run.scale(36, 300)
+    tries = 0
+    while len(terms) < want and tries < 5 * want:
+        tries += 1
+        kind = ("simple", "plus", "comma")[tries % 3]
+        try:
+            n, ngen = rng.randint(0, 4), rng.randint(0, 3)
+            cfg = c03.gen_simple(rng, n=n, ngen=ngen) if kind == "simple" else c03.gen_mu(rng, kind, n=n, ngen=ngen)
+            cfg = c03.fix_guards(cfg)
+            cfg["alias"] = []
+            cfg["full"] = True
+            leg, obs = c03.run_impl(cfg)[0]
+            if "skipped" in obs or "raised" in obs or not obs.get("full") or obs["full"]["bad"] \
+                    or not leg.get("stats", True) or not leg.get("hof", True):
+                continue
+            terms.append(c03.coq_term_full(leg, obs))
+            cases.append(c03.cfg_public(leg))
+        except Exception:  # noqa  (a case that cannot be driven is C03's business, not a disagreement here)
+            continue
+    # the loops leaving with an exception: eaMuCommaLambda's own assertion, varOr's guards
+    base = {"evp": [1, 0, 7, False], "weights": [1], "hofsize": 1, "opstyle": "inplace", "sel": "firstk"}
+    for kind, extra, wantx in (
+            ("comma", dict(ngen=1, n=2, genos=[[1], [2]], preeval=[True, False], mu=3, lam=2, cxpb=0.0, mutpb=0.0), "AssertionError"),
+            ("plus", dict(ngen=2, n=1, genos=[[1, 2]], preeval=[True], mu=1, lam=2, cxpb=1.0, mutpb=0.0), "ValueError"),
+            ("comma", dict(ngen=1, n=0, genos=[], preeval=[], mu=0, lam=2, cxpb=0.0, mutpb=0.5), "IndexError")):
+        try:
+            cfg = dict(base, kind=kind, seed=rng.randrange(10 ** 9), full=True, **extra)
+            leg, obs = c03.run_impl(cfg)[0]
+            if obs.get("raised_type") == wantx:
+                terms.append(c03.coq_term_full_raise(leg, obs))
+                cases.append(c03.cfg_public(leg))
+        except Exception:  # noqa
+            continue
+    run.extra_cov["regenerated_loops_cases"] = len(terms)
+    for c in cases:
+        run.note_case(("loops", c), True)
+    if terms:
+        run.correspond("regenerated_loops", "C02_loops", terms, cases, check="check_gen_loops",
+                       requires=["From Coq Require Import PrimFloat."], shard=run.scale(40, 100))
+
+
 def diagnose_regenerated(run, gen_check, reqs, translated, terms, cases, disagreed):
     """Which of the two -- hand model, regenerated definitions -- disagrees with the implementation?  Notes only:
     the cases are already counted."""
@@ -1184,6 +1313,7 @@ def main(run):
                         "otherwise (the real code raises ValueError / IndexError there, proved as guards)"]
     build_with_retry(run)
     gen_check, reqs, translated = tie_regenerated(run)
+    loops_ok = tie_regenerated_loops(run, gen_check == "check_both")
     run.search_fn = wide_search
     corpus_runs(run)
     terms, cases = [], []
@@ -1192,5 +1322,7 @@ def main(run):
     ndis = len(run.disagreements)
     correspond_with_retry(run, "variation", terms, cases, check=gen_check, requires=reqs)
     diagnose_regenerated(run, gen_check, reqs, translated, terms, cases, len(run.disagreements) > ndis)
+    if loops_ok:
+        loops_correspondence(run)
     nreal = real_operator_runs(run)
     run.extra_cov["real_operator_runs"] = nreal
